@@ -1027,3 +1027,137 @@ Proof.
   cbv zeta. split; [apply irun_erase|].
   vm_compute. repeat split; try reflexivity; lia.
 Qed.
+
+(* ------------------------------------------------------------------ *)
+(* The unbounded version of the regression example: the 2-yield cycle of the
+   pinned code, by symbolic execution.  V x ... lists the components of the
+   state that the run reads: pc, cur, prog, opi of thread 0, deque 1
+   (= schedule_from), the states of fibers 1 2 3, the hand-out log and the
+   bypass counter of fiber 1. *)
+Record V (x : ist) (P : pcT) (c : nat) (r : list op) (o : nat) (q : list nat) (f1 f2 f3 : Z)
+         (h : list nat) (n : nat) : Prop := {
+  v_n : nthr (base x) = 1; v_ts : to_store (base x) = false; v_from : sfrom (base x) 0 = 1;
+  v_pc : pc (thr (base x) 0) = P; v_cur : cur (thr (base x) 0) = c;
+  v_prog : prog (thr (base x) 0) = r; v_opi : opi (thr (base x) 0) = o;
+  v_q : dq (base x) 1 = q;
+  v_f1 : fstt (base x) 1 = f1; v_f2 : fstt (base x) 2 = f2; v_f3 : fstt (base x) 3 = f3;
+  v_h : hand x = h; v_b : byp x 1 = n }.
+
+Ltac vstep H :=
+  let Hn := fresh in let Hts := fresh in let Hfrom := fresh in let Hpc := fresh in let Hcur := fresh in
+  let Hprog := fresh in let Hopi := fresh in let Hq := fresh in let H1 := fresh in let H2 := fresh in
+  let H3 := fresh in let Hh := fresh in let Hb := fresh in
+  destruct H as [Hn Hts Hfrom Hpc Hcur Hprog Hopi Hq H1 H2 H3 Hh Hb];
+  unfold igrant; cbn [mstatus M]; unfold status_of; rewrite Hn, Hpc; cbn [Nat.ltb Nat.leb];
+  unfold lstep; rewrite Hpc; unfold step; rewrite Hpc;
+  try (unfold lb_continue; rewrite Hn, lb_scan_1thread; unfold lb_ret);
+  rewrite ?Hts, ?Hfrom, ?Hcur, ?Hq, ?H1, ?H2, ?H3;
+  cbn [Z.eqb Pos.eqb fst next_ret];
+  rewrite ?Hts, ?Hfrom, ?Hcur, ?Hq, ?H1, ?H2, ?H3;
+  try (unfold finish; rewrite Hprog, Hopi; cbn [start Nat.eqb app fst snd repeat]);
+  constructor; cbn [base byp hand fst nthr to_store sfrom sto dq fstt thr set_thr set_dq set_fs set_from set_to
+                     pc cur prog opi with_pc];
+  unfold upd; cbn [Nat.eqb pc cur prog opi with_pc];
+  rewrite ?Hn, ?Hts, ?Hfrom, ?Hcur, ?Hq, ?H1, ?H2, ?H3, ?Hh, ?Hb, ?Hprog, ?Hopi; cbn [Z.eqb Pos.eqb]; try reflexivity.
+
+Ltac adv :=
+  match goal with
+  | H : V ?x _ _ _ _ _ _ _ _ _ _ |- _ =>
+    let H' := fresh "V" in let x' := fresh "x" in
+    eassert (H' : V (igrant x 0) _ _ _ _ _ _ _ _ _ _) by (vstep H); clear H;
+    set (x' := igrant x 0) in *; clearbody x'
+  end.
+
+
+Lemma irun_app x l1 l2 : irun x (l1 ++ l2) = irun (irun x l1) l2.
+Proof. unfold irun. apply fold_left_app. Qed.
+
+(* the prefix: spawn 1,2,3 and one scheduler-loop iteration hand out fiber 3 *)
+Lemma starve_prefix k :
+  V (irun (iinit false (starve_prog (S k))) (repeat 0 15)) PYRead 3 (repeat OYield k) 5 [2;1] 2 2 1 [3] 1.
+Proof.
+  assert (H : V (iinit false (starve_prog (S k))) (PSpawnR 1) 0
+                ([OSpawn 2; OSpawn 3; OIdle] ++ repeat OYield (S k)) 1 [] 0 0 0 [] 0).
+  { constructor; reflexivity. }
+  cbn [irun fold_left repeat].
+  do 15 adv. exact V0.
+Qed.
+
+(* one yield of fiber 3 (fiber 2 on top of the drained deque, then 1) ... *)
+Lemma starve_cycA x r o h n : V x PYRead 3 r o [2;1] 2 2 1 h n ->
+  V (irun x (repeat 0 9)) (pc (snd (start 0 2 r (S o)))) 2 (prog (snd (start 0 2 r (S o))))
+    (opi (snd (start 0 2 r (S o)))) [3;1] 2 1 2 (h ++ [2]) (S n).
+Proof.
+  intros H. cbn [irun fold_left repeat]. do 8 adv.
+  destruct V0 as [Hn Hts Hfrom Hpc Hcur Hprog Hopi Hq H1 H2 H3 Hh Hb].
+  assert (Hc : cur (snd (start 0 2 r (S o))) = 2).
+  { clear. generalize (S o). induction r as [|a r IH]; intros k; cbn [start]; auto.
+    destruct a; cbn; auto. specialize (IH (S k)). destruct (start 0 2 r (S k)); exact IH. }
+  unfold igrant; cbn [mstatus M]; unfold status_of; rewrite Hn, Hpc; cbn [Nat.ltb Nat.leb].
+  unfold lstep; rewrite Hpc; unfold step; rewrite Hpc. rewrite Hts, Hfrom, Hq.
+  unfold finish. rewrite Hprog, Hopi. destruct (start 0 2 r (S o)) as [e1 T1]. cbn [snd] in *.
+  constructor; cbn [base byp hand fst nthr to_store sfrom sto dq fstt thr set_thr set_dq]; auto;
+    unfold upd; cbn [Nat.eqb]; auto.
+Qed.
+
+(* ... and one yield of fiber 2 (fiber 3 on top, then 1) *)
+Lemma starve_cycB x r o h n : V x PYRead 2 r o [3;1] 2 1 2 h n ->
+  V (irun x (repeat 0 9)) (pc (snd (start 0 3 r (S o)))) 3 (prog (snd (start 0 3 r (S o))))
+    (opi (snd (start 0 3 r (S o)))) [2;1] 2 2 1 (h ++ [3]) (S n).
+Proof.
+  intros H. cbn [irun fold_left repeat]. do 8 adv.
+  destruct V0 as [Hn Hts Hfrom Hpc Hcur Hprog Hopi Hq H1 H2 H3 Hh Hb].
+  assert (Hc : cur (snd (start 0 3 r (S o))) = 3).
+  { clear. generalize (S o). induction r as [|a r IH]; intros k; cbn [start]; auto.
+    destruct a; cbn; auto. specialize (IH (S k)). destruct (start 0 3 r (S k)); exact IH. }
+  unfold igrant; cbn [mstatus M]; unfold status_of; rewrite Hn, Hpc; cbn [Nat.ltb Nat.leb].
+  unfold lstep; rewrite Hpc; unfold step; rewrite Hpc. rewrite Hts, Hfrom, Hq.
+  unfold finish. rewrite Hprog, Hopi. destruct (start 0 3 r (S o)) as [e1 T1]. cbn [snd] in *.
+  constructor; cbn [base byp hand fst nthr to_store sfrom sto dq fstt thr set_thr set_dq]; auto;
+    unfold upd; cbn [Nat.eqb]; auto.
+Qed.
+
+Lemma starve_loop : forall j (ph : bool) x o h n,
+  (if ph then V x PYRead 3 (repeat OYield j) o [2;1] 2 2 1 h n
+   else V x PYRead 2 (repeat OYield j) o [3;1] 2 1 2 h n) ->
+  ~ In 1 h ->
+  let x' := irun x (repeat 0 (9 * S j)) in
+  pc (thr (base x') 0) = Fin /\ fstt (base x') 1 = 2%Z /\ In 1 (dq (base x') 1) /\
+  sfrom (base x') 0 = 1 /\ ~ In 1 (hand x') /\ length (hand x') = length h + S j /\
+  byp x' 1 = n + S j.
+Proof.
+  induction j as [|j IH]; intros ph x o h n H Hh; cbv zeta.
+  - change (9 * 1) with 9.
+    destruct ph; [apply starve_cycA in H|apply starve_cycB in H];
+      cbn [repeat start snd pc prog opi] in H;
+      destruct H as [Hn Hts Hfrom Hpc Hcur Hprog Hopi Hq H1 H2 H3 Hh' Hb];
+      rewrite Hpc, H1, Hq, Hfrom, Hh', Hb, app_length; cbn [length];
+      (repeat split; auto; try lia; [cbn; auto | rewrite in_app_iff; cbn; intuition lia]).
+  - replace (9 * S (S j)) with (9 + 9 * S j) by lia. rewrite repeat_app, irun_app.
+    destruct ph; [apply starve_cycA in H|apply starve_cycB in H];
+      cbn [repeat start snd pc prog opi Nat.eqb] in H.
+    + specialize (IH false _ _ _ _ H). cbv zeta in IH.
+      destruct IH as (A & B & C & D & E & F & G).
+      { rewrite in_app_iff; cbn; intuition lia. }
+      rewrite app_length in F. cbn [length] in F. repeat split; auto; lia.
+    + specialize (IH true _ _ _ _ H). cbv zeta in IH.
+      destruct IH as (A & B & C & D & E & F & G).
+      { rewrite in_app_iff; cbn; intuition lia. }
+      rewrite app_length in F. cbn [length] in F. repeat split; auto; lia.
+Qed.
+
+(* the unbounded version: for EVERY k, after spawn 1,2,3; idle; k+1 yields
+   run to completion on the pinned code, fiber 1 is still READY and queued,
+   was never handed out, and next() handed out k+2 other fibers *)
+Theorem starvation_unbounded k :
+  let x := irun (iinit false (starve_prog (S k))) (repeat 0 (15 + 9 * S k)) in
+  pc (thr (base x) 0) = Fin /\ fstt (base x) 1 = 2%Z /\ queued (base x) 1 /\
+  ~ In 1 (hand x) /\ length (hand x) = S (S k) /\ byp x 1 = S (S k).
+Proof.
+  cbv zeta. rewrite repeat_app, irun_app.
+  pose proof (starve_prefix k) as H.
+  destruct (starve_loop k true _ _ _ _ H) as (A & B & C & D & E & F & G).
+  { cbn; intuition lia. }
+  repeat split; auto.
+  unfold queued, Fq. rewrite D. apply in_or_app; left; exact C.
+Qed.
